@@ -20,7 +20,7 @@ _ENV = re.compile(r" sched=-?\d+ alloc=-?\d+ cookie=-?\d+")
 # plans
 # ---------------------------------------------------------------------------
 STEP_W = [("v", 30), ("V", 10), ("o", 20), ("O", 8), ("c", 22), ("s", 8), ("x", 18), ("y", 10), ("l", 18),
-          ("a", 8), ("e", 4), ("q", 10), ("t", 4)]
+          ("a", 8), ("e", 4), ("q", 10), ("t", 4), ("z", 5)]
 
 
 def gen_plans(rng, max_plans=4, max_steps=7):
